@@ -18,6 +18,8 @@ use std::borrow::ToOwned;
 enum Case {
     /// the README table: Kmer::<Dna,5>::from(0..=15)
     Readme,
+    /// Seq::<text::Dna>::from(Vec<usize>): raw words read as 8 text symbols per word
+    TextFromWords { words: usize },
     /// integer conversion for one k-mer type: all contents (small) or the P(K) family
     Ints { cid: Cid, sid: Sid, k: usize },
     /// slices longer than a word are refused
@@ -34,6 +36,9 @@ fn content_bound(t: Tier) -> f64 {
 
 fn gen(t: Tier, _seed: u64, emit: &mut dyn FnMut(Case)) {
     emit(Case::Readme);
+    for words in 0..=5 {
+        emit(Case::TextFromWords { words });
+    }
     for cid in Cid::ALL {
         for sid in Sid::ALL {
             for k in k_set(cid, sid, t.thorough()) {
@@ -61,6 +66,15 @@ fn gen(t: Tier, _seed: u64, emit: &mut dyn FnMut(Case)) {
 fn run(c: &Case, out: &mut Out) {
     match c {
         Case::Readme => readme(out),
+        Case::TextFromWords { words } => {
+            let text: Vec<u8> = (0..*words * 8).map(|i| b"ACGTN"[(i * 7 + i / 5) % 5]).collect();
+            let ws: Vec<usize> = pack_words(&text, 8).iter().map(|w| *w as usize).collect();
+            out.stage = "Seq::<text::Dna>::from(Vec<usize>)";
+            let r = out.catch(|| Seq::<TDna>::from(ws.clone()));
+            let ok = matches!(&r, Ok(s) if s.len() == text.len() && s.to_string().as_bytes() == &text[..] && s.into_raw() == &ws[..]);
+            out.check(ok, || ("text::Dna/from-words/not-little-endian-packing".into(), format!("Seq::<text::Dna>::from({ws:x?}) = {:?}, want {:?}", r.as_ref().map(|s| s.to_string()), String::from_utf8_lossy(&text))));
+            out.observe(&(*words, ok));
+        }
         Case::Ints { cid, sid, k } => bsvk::dispatch_k!(*cid, ints(*sid, *k, out)),
         Case::RawFromKmer { cid, k } => bsvk::dispatch_k!(*cid, raw_from_kmer(*k, out)),
         Case::Refuse { cid } => dispatch!(*cid, refuse(out)),
